@@ -55,6 +55,8 @@ type handler1 struct {
 	topicIDLock       sync.Mutex
 	topicIDsExhausted bool
 	pktBuffer         []snPkts.Packet
+	// Stops the pinger of the current sleep period (MQTT-SN receive loop only).
+	stopSleepPinger func()
 	// TopicIDs of the topics registered by the gateway (topic name => TopicID).
 	registrationTopicIDs map[string]uint16
 	group            *errgroup.Group
@@ -583,6 +585,8 @@ func (h *handler1) handleConnect(ctx context.Context, snConnect *snPkts1.Connect
 	// A sleeping client returns to the active state with CONNECT; the MQTT
 	// connection is kept established during the sleep.
 	if state := h.state.Get(); state == util.StateAwake || state == util.StateAsleep {
+		// The sleep period is over: the client keeps the connection alive itself.
+		h.cancelSleepPinger()
 		h.setState(util.StateActive)
 		reply := snPkts1.NewConnack(snPkts1.RC_ACCEPTED)
 		if err := h.snSend(reply); err != nil {
@@ -885,10 +889,17 @@ func (h *handler1) handleMqttSn(ctx context.Context, pkt snPkts.Packet) error {
 			return Shutdown
 		} else {
 			h.log.Debug("Going to sleep for %vs", snPkt.Duration)
+			// A new sleep period replaces the previous one: its pinger must not
+			// go on until the end of the period it was started for.
+			h.cancelSleepPinger()
 			if h.keepAlive != 0 && snPkt.Duration > h.keepAlive {
 				// We must ensure MQTT gateway considers client alive during sleep period.
 				cancelPinger := h.startSleepPinger(ctx)
-				time.AfterFunc(time.Duration(snPkt.Duration)*time.Second, cancelPinger)
+				timer := time.AfterFunc(time.Duration(snPkt.Duration)*time.Second, cancelPinger)
+				h.stopSleepPinger = func() {
+					timer.Stop()
+					cancelPinger()
+				}
 			}
 			// A sleeping client repeats its DISCONNECT if it has not got our
 			// reply: the packets queued for it in the meantime must be kept.
@@ -946,6 +957,13 @@ func (h *handler1) handleMqttSn(ctx context.Context, pkt snPkts.Packet) error {
 
 	default:
 		return fmt.Errorf("unsupported MQTT-SN packet type: %v", pkt)
+	}
+}
+
+func (h *handler1) cancelSleepPinger() {
+	if h.stopSleepPinger != nil {
+		h.stopSleepPinger()
+		h.stopSleepPinger = nil
 	}
 }
 
